@@ -73,3 +73,10 @@ Definition dbal_triples (n_thetas max_combos : Z) (draw : Z -> Z -> list Z)
     | [] => Err 6
     | idxs => dor ts <- triples n_thetas idxs; Ok (ncomb, size, ts)
     end.
+
+(* numpy contract of Generator.choice(N, size=m, replace=False) used by the theorems about
+   dbal_triples: m distinct values of range(N).  The harness checks every recorded draw
+   against it. *)
+Definition choice_contract (draw : Z -> Z -> list Z) : Prop :=
+  forall N m, 0 <= m <= N ->
+    NoDup (draw N m) /\ Z.of_nat (length (draw N m)) = m /\ forall i, In i (draw N m) -> 0 <= i < N.
